@@ -72,11 +72,22 @@ def run(res, replay=None):
             specs.append(gen.rand_spec(rng, n_total=rng.choice([2, 3, 3, 4] if res.tier == 'quick' else [2, 3, 4, 4, 5]),
                                        n_demes=rng.choice([1, 2, 2, 3]) , n_epochs=rng.choice([1, 2, 3, 4]),
                                        size_range=(-3, 3), mig_only_boundary=(i % 3 == 0)))
+    if not replay:
+        # designed configuration: a LONG first epoch followed by a much faster one, queried beyond the change BEFORE the moments
+        # with the default horizon are asked (the horizon search must not read whatever rate matrix the earlier query left behind)
+        specs.append({'n_items': [['a', rng.choice([2, 3])]], 'model': {'kind': 'kingman'},
+                      'pop_sizes': {'a': {'0.0': 4.0, '16.0': 0.0625}}, 'designed': 'slow_then_fast'})
     cases = []
-    for s in specs:
+    for j, s in enumerate(specs):
         ops = build_ops(rng, s, budget=(96 if res.tier == 'quick' else 180))
-        cases.append({'spec': s, 'ops': [o[0] for o in ops], '_q': [o[1] for o in ops]})
-    outs = C.run_impl_parallel('numeric.py', [{'cases': [{'spec': c['spec'], 'ops': c['ops']}]} for c in cases])
+        c_ = {'spec': s, 'ops': [o[0] for o in ops], '_q': [o[1] for o in ops]}
+        bs_ = sorted({float(t) for d in s['pop_sizes'].values() for t in d})
+        if (j % 3 == 1 or s.get('designed')) and len(bs_) > 1 and s.get('end_time') is None:
+            # the object is first asked for the cdf / a quantile far beyond its last change point (the shared state space is
+            # left in the last epoch), THEN for its moments with the default horizon
+            c_['pre_ops'] = [{'kind': 'cdf', 'ts': [bs_[-1] + 40.0]}] + ([{'kind': 'quantile', 'q': 0.5}] if j % 2 == 0 and not s.get('designed') else [])
+        cases.append(c_)
+    outs = C.run_impl_parallel('numeric.py', [{'cases': [{'spec': c['spec'], 'ops': c['ops'], 'pre_ops': c.get('pre_ops', [])}]} for c in cases])
     bodies, keep = [], []
     for i, (c, o) in enumerate(zip(cases, outs)):
         r = o['results'][0]
@@ -89,6 +100,8 @@ def run(res, replay=None):
             q = dict(q)
             q.setdefault('end', end_default)
             qs.append(q)
+        # the default horizon itself: the MODEL cdf at the implementation's t_max must have reached the absorption probability
+        qs.append(dict(kind='cdf', ts=[r['t_max']]))
         txt, _ = N.case_text(i, c['spec'], r, qs, [])
         bodies.append(txt)
         keep.append((c, r, qs))
@@ -124,6 +137,12 @@ def run(res, replay=None):
                 res.violation('moment differs from the moment of the labelled coalescent (model value)',
                               {'spec': c['spec'], 'op': op, 'expected': m, 'observed': iv, 'order': k,
                                't_max': r['t_max'], 'warnings': r['warnings']})
+        if c['spec'].get('end_time') is None and not warned and len(mv) > len(c['ops']) and mv[len(c['ops'])]:
+            cdf_tmax = mv[len(c['ops'])][0]
+            res.count((gen.spec_key(c['spec']), 'horizon'))
+            if cdf_tmax < 1 - 1e-9:
+                res.violation('default horizon: the time up to which moments are integrated is far from almost sure absorption and no warning was logged',
+                              {'spec': c['spec'], 'pre_ops': c.get('pre_ops'), 't_max': r['t_max'], 'model_cdf_at_t_max': cdf_tmax})
         res.sample({'spec': c['spec'], 'tree_height.mean': r['values'][0], 'model': mv[0][0]}, cap=4)
     res.stream('moments', configurations=len(keep), with_warning=nwarn)
     res.extra['input_distribution'] = {
